@@ -33,6 +33,12 @@ def main():
                 common.build_harness(f[:-4])
             except Exception as e:  # a harness that cannot build is reported by its check
                 print("harness %s: %s" % (f, str(e)[-2000:]))
+    # sanitizer flavours used as validators by C13 (ASan/LSan) and C14 (TSan)
+    for name, flavour in (("treeops", "asan"), ("treethreads", "tsan")):
+        try:
+            common.build_harness(name, flavour=flavour)
+        except Exception as e:
+            print("harness %s[%s]: %s" % (name, flavour, str(e)[-2000:]))
     return 0
 
 
